@@ -287,11 +287,24 @@ func (s *Sub[C]) safeRun(c C, o *Obs) (f *Failure) {
 	done := make(chan *Failure, 1)
 	lo := &Obs{}
 	go func() { done <- s.runRecover(c, lo) }()
-	select {
-	case f := <-done:
-		*o = *lo
-		return f
-	case <-time.After(s.Timeout):
+	w0 := netx.Waited()
+	limit := s.Timeout
+	for {
+		select {
+		case f := <-done:
+			*o = *lo
+			return f
+		case <-time.After(limit):
+		}
+		// time the case spent waiting for the sandbox (free ports) does not count
+		w1 := netx.Waited()
+		if w1 == w0 {
+			break
+		}
+		limit = time.Duration(w1-w0) + time.Second
+		w0 = w1
+	}
+	{
 		o.NonTrivial = true
 		return &Failure{Sig: "hang:" + s.Name, What: fmt.Sprintf("the case did not finish within %v; goroutines inside reservoir code:\n%s", s.Timeout, reservoirStacks())}
 	}
@@ -444,6 +457,16 @@ func (s *Sub[C]) Once(c C) *Failure {
 	// a failure whose text names exhaustion of the sandbox itself (no free loopback port, no file
 	// descriptors) says nothing about reservoir: wait for the machine to recover and run the case again;
 	// if it persists the case is dropped and the run is reported inconclusive, never as a violation
+	if f != nil && !netx.IsEnv(f.What) && netx.Pressure() {
+		// the port range is nearly used up: a dial inside the proxy may have failed without its error text
+		// reaching the failure message; run the case once more when the machine has ports again
+		netx.Calm()
+		o = &Obs{}
+		f = s.safeRun(c, o)
+		mu.Lock()
+		sub(s.Name).EnvRetries++
+		mu.Unlock()
+	}
 	for i := 0; f != nil && netx.IsEnv(f.What) && i < len(envWaits); i++ {
 		time.Sleep(envWaits[i])
 		o = &Obs{}
